@@ -19,8 +19,8 @@ table (`Named.baseCtx`: n • G = 0 checked by kernel evaluation).
 bytes, DER, PEM, key objects handed over directly — with the two loader calls of each party in either order, and gives the
 shared bytes explicitly (big-endian x((d_A d_B)•G), left-padded to ⌈bitlen p / 8⌉ bytes).
 
-Hypotheses left: `p` prime and `n` prime for the row (the SEC 2 / FIPS / RFC 5639 facts); for the 13 curves of
-`NamedPrimes.unconditionalCurves` none (`exchange_agrees_all_loaders_unconditional`).
+Hypotheses left: `p` prime and `n` prime for the row (the SEC 2 / FIPS / RFC 5639 facts); for the curves of
+`NamedPrimes.unconditionalCurves` (all 17 of the table) none (`exchange_agrees_all_loaders_unconditional`).
 -/
 namespace C05x
 open Ecdh Keys KeysP Curve Jac GroupInterface WeierstrassCurve
@@ -523,7 +523,7 @@ theorem nist256p_exchange_agrees_all_loaders (dA dB : Nat) (hA : 1 ≤ dA ∧ dA
     (hB : 1 ≤ dB ∧ dB < Gen.curve_NIST256p.n) : ExchangeAgreesAll Gen.curve_NIST256p mem_NIST256p dA dB :=
   named_exchange_agrees_all_loaders Gen.curve_NIST256p mem_NIST256p NamedPrimes.prime_n_NIST256p dA dB hA hB
 
-/-- **every loader, unconditional on the 13 curves of `NamedPrimes.unconditionalCurves`** (p and n carry kernel-checked
+/-- **every loader, unconditional on the curves of `NamedPrimes.unconditionalCurves` (all 17 of the table)** (p and n carry kernel-checked
 primality certificates, n • G = 0 is checked by kernel evaluation): no hypothesis about the curve is left -/
 theorem exchange_agrees_all_loaders_unconditional (r : Gen.CurveRow) (hr : r ∈ NamedPrimes.unconditionalCurves) (dA dB : Nat)
     (hA : 1 ≤ dA ∧ dA < r.n) (hB : 1 ≤ dB ∧ dB < r.n) :
@@ -532,8 +532,8 @@ theorem exchange_agrees_all_loaders_unconditional (r : Gen.CurveRow) (hr : r ∈
   haveI : Fact r.p.Prime := ⟨(NamedPrimes.unconditional_subset r hr).2.1⟩
   exact named_exchange_agrees_all_loaders r (NamedPrimes.unconditional_subset r hr).1 (NamedPrimes.unconditional_subset r hr).2.2 dA dB hA hB
 
-/-- non-vacuity: the list has 13 curves, among them one with cofactor 4 -/
-example : NamedPrimes.unconditionalCurves.length = 13 ∧ Gen.curve_SECP112r2 ∈ NamedPrimes.unconditionalCurves ∧
+/-- non-vacuity: the list has all 17 curves of the table, among them one with cofactor 4 -/
+example : NamedPrimes.unconditionalCurves.length = 17 ∧ Gen.curve_SECP112r2 ∈ NamedPrimes.unconditionalCurves ∧
     Gen.curve_BRAINPOOLP320r1 ∈ NamedPrimes.unconditionalCurves := by
   refine ⟨rfl, ?_, ?_⟩ <;> simp [NamedPrimes.unconditionalCurves]
 
